@@ -38,7 +38,7 @@ func init() {
 			"record lines compared as a set keyed by tree id. Library level: 2..R calls in one process of the randomised / map-consuming functions after re-seeding. " +
 			"non-trivial = the command exits with status 0 and produces output; distinct by (template, input family)",
 		Assumptions: []string{
-			"--seed is always given; log files that carry dates are not requested; commands that need the network or a terminal are out of reach offline",
+			"--seed is always given (any value other than -1, which is documented as the clock: 0, negative and 64-bit values included); log files that carry dates are not requested; commands that need the network or a terminal are out of reach offline",
 		},
 		MinNontrivialFrac: 0.25,
 		Run:               runC18,
@@ -61,7 +61,7 @@ func runC18(c *Ctx, idx int, o *Obs) {
 	if c.Thorough() {
 		R = 12
 	}
-	seed := []string{"--seed", fmt.Sprint(gen.Pick(c.Rng("C18", idx), 1, 42, 2147483648))}
+	seed := []string{"--seed", fmt.Sprint(gen.Pick(c.Rng("C18", idx), 1, 42, 2147483648, 0, -2, 9223372036854775807))}
 	what := fmt.Sprintf("gotree %s %s (inputs family %d)", strings.Join(t.Args, " "), strings.Join(seed, " "), fam)
 	o.Class = "cli/" + t.Name
 	o.Sample = what
